@@ -235,7 +235,7 @@ func (ec *EngCase) body(c *Case) func(b *harness.BodyCtx) {
 }
 
 func genEngCase(t *rapid.T) *Case {
-	prof := &ir.Profile{Name: "c20-tree", MinSteps: 1, MaxSteps: 4, Durs: []int64{0, 1, 5}, Foreach: 60, MaxDepth: 3, Modes: []string{"err"}, PBad: 15, PDisabled: 15, PWaitFor: 30, MaxOutputs: 1}
+	prof := &ir.Profile{Name: "c20-tree", ItemsFromStep: 25, MinSteps: 1, MaxSteps: 4, Durs: []int64{0, 1, 5}, Foreach: 60, MaxDepth: 3, Modes: []string{"err"}, PBad: 15, PDisabled: 15, PWaitFor: 30, MaxOutputs: 1}
 	doc := ir.GenDoc(t, true, 3)
 	prog := ir.GenProgram(t, prof, doc)
 	// output ids and explicit schemas: which output is chosen depends on the steps; its error flag on the declaration
